@@ -122,7 +122,8 @@ fn main() {
         let threads = if e.serial { 1 } else { args.threads };
         let base = trv::prng::mix(args.seed, e.salt);
         let tier = args.tier;
-        let a = drive(e.name, base, n, threads, |s| (e.run)(s, tier));
+        let confirm = !e.name.starts_with("stress") && !matches!(e.name, "miri" | "asan" | "slow-listeners");
+        let a = drive(e.name, base, n, threads, confirm, |s| (e.run)(s, tier));
         aggs.push(a);
     }
     let mut extra = json!({});
